@@ -114,6 +114,7 @@ class C11(Check):
         v1 = name.startswith("v1-")
         dev = dialogues.configure(PowHsm(seed=b"c11"), name)
         w = World(dev)
+        w.hid_model = True       # a device that went away is found again only after a reset of the HID stack
         proto = harness.make_protocol(w, v1=v1, debug=debug)
         base = len(w.log)
         armed = {"on": idx is not None, "base": None}
@@ -494,6 +495,12 @@ class C11(Check):
                     viol("no-reopen", {"log": entries[:8]}, "getDongle() after close()")
                     return
                 if entries[pos][0] == "open-fail":
+                    failed_opens = locals().get("failed_opens", 0) + 1
+                    if failed_opens > k:
+                        viol("reconnect-does-not-succeed-when-the-device-is-back",
+                             {"failed_attempts": failed_opens, "log": entries[:6]},
+                             {"connect_failures_injected": k})
+                        return
                     if len(entries) > pos + 1:
                         viol("traffic-after-failed-connect", {"log": entries[:8]}, "nothing")
                         return
